@@ -105,6 +105,7 @@ func main() {
 			}
 		}
 		fmt.Println("dumped", len(cases), "cases to", d)
+		_ = os.RemoveAll(e.Scratch)
 		os.Exit(0)
 	}
 
